@@ -1,13 +1,6 @@
 // ---------- specification of C01 (utility): expectation of a tree, from the property text ----------
 pub struct Ctx { pub chance: Seq<Seq<f64>>, pub s1: Seq<Seq<f64>>, pub s2: Seq<Seq<f64>> }
 
-pub open spec fn kids_of(n: Node) -> Seq<Node> {
-    match n {
-        Node::Terminal(_) => Seq::empty(),
-        Node::Chance(ch) => ch.outcomes@,
-        Node::Player(pl) => pl.actions@,
-    }
-}
 pub open spec fn weights_of(n: Node, c: Ctx) -> Seq<f64> {
     match n {
         Node::Terminal(_) => Seq::empty(),
@@ -67,8 +60,3 @@ pub proof fn lemma_qsum_push(q: Seq<(&Node, f64)>, e: (&Node, f64), c: Ctx)
     assert(q.push(e).drop_last() =~= q);
 }
 
-pub proof fn lemma_dist(r: real, a: real, w: real, e: real)
-    ensures r * (a + w * e) == r * a + (w * r) * e
-{
-    assert(r * (a + w * e) == r * a + (w * r) * e) by(nonlinear_arith);
-}
